@@ -268,6 +268,29 @@ def judge_c19(res, arch, plan, rate):
     n = len(w.conns)
     if n > cap:
         probs.append(('too-many-connections', '%d connections > bound %d (host-key types %d, gex algs %d, rate %s)' % (n, cap, probed_types, len(gex_algs), rate)))
+    # per phase: a fixed-group / curve exchange is only ever started by a host-key probe, and there is at most one probe per distinct key type
+    # the peer lists - however often it lists it, and whether or not the probe's reply arrives
+    n30 = len([r for r in recs if any(pk['type'] == 30 for pk in r.get('packets_in', []))])
+    if arch != 'G' and n30 > probed_types:
+        probs.append(('more-host-key-probes-than-key-types', '%d connections carried a key-exchange init, %d distinct probed key types offered' % (n30, probed_types)))
+    # ... and each probe connection says which key type it is for (the tool's own KEXINIT on it lists that one type): no type twice
+    asked = {}
+    for r in recs:
+        pks = r.get('packets_in', [])
+        if arch == 'G' or not any(pk['type'] == 30 for pk in pks):
+            continue
+        for pk in pks:
+            if pk['type'] == 20 and pk.get('payload'):
+                try:
+                    ks = wire.names_of(wire.parse_kexinit(bytes(pk['payload']))['key'])
+                except Exception:
+                    ks = []
+                if len(ks) == 1:
+                    asked.setdefault(ks[0], []).append(r['index'])
+                break
+    for t, idxs in sorted(asked.items()):
+        if len(idxs) > 1:
+            probs.append(('host-key-type-probed-twice', '%s asked for on connections %s' % (t, idxs)))
     # key-exchange computation requests: only on probe connections, at most one exchange per connection
     for r in recs:
         kexmsgs = [pk for pk in r.get('packets_in', []) if pk['type'] in (30, 32, 34)]
@@ -277,7 +300,8 @@ def judge_c19(res, arch, plan, rate):
         types = [pk['type'] for pk in r.get('packets_in', [])]
         if kexmsgs and (20 not in types or types.index(20) > min(types.index(t) for t in (30, 32, 34) if t in types)):
             probs.append(('kex-request-without-preceding-kexinit', 'connection %d got %s' % (r['index'], types)))
-        if len(inits) > 1 or len([pk for pk in kexmsgs if pk['type'] == 34]) > 1:
+        # one request per connection: a group-exchange request (34) or a fixed-group / curve init (30), never one after the other
+        if len(inits) > 1 or len([pk for pk in kexmsgs if pk['type'] == 34]) > 1 or len([pk for pk in kexmsgs if pk['type'] in (30, 34)]) > 1:
             probs.append(('multiple-exchanges-on-one-connection', 'connection %d got %s' % (r['index'], [pk['type'] for pk in kexmsgs])))
     # concurrency (sockets connected at the same time) and closure at exit
     open_now, peak = 0, 0
@@ -286,7 +310,7 @@ def judge_c19(res, arch, plan, rate):
         if ev[0] in ('established', 'accept'):
             live.add(ev[1])
             peak = max(peak, len(live))
-        elif ev[0] == 'close':
+        elif ev[0] in ('close', 'recv-rst', 'peer-reset-seen'):      # a connection the peer has aborted no longer exists on the target
             live.discard(ev[1])
     maxc = 3 if rate else initial_conns(arch)   # the SSH-1 fallback runs while the first (SSH-2) connection is still held
     if peak > maxc:
